@@ -179,11 +179,27 @@ Theorem C18_description_meaning :
   (forall a : N, eqbN a a = true) ->
   forall (sd : save_d) (k1 k2 k3 k4 : fkey),
   sv_names sd = NKeys -> sv_is3d sd = (KFlx, 3) ->
-  normalize (sv_3d sd) = Some (canon_norm true k1 k2) -> normalize (sv_2d sd) = Some (canon_norm false k3 k4) ->
+  normalize (sv_3d sd) = Some (canon_norm true MByName k1 k2) ->
+  normalize (sv_2d sd) = Some (canon_norm false MByName k3 k4) ->
   forall (rs : @results N T V F A) (tws : list (@tower N V)),
   run_save eqbN str nanV zeroF E sd rs tws =
   option_map (fun d => (d, @nil (String.string * String.string))) (assemble eqbN str nanV zeroF rs tws).
 Proof. exact (@run_save_canonical). Qed.
+
+(* the same description with the tower metadata attached BY POSITION (the original code; xr.Dataset raises on
+   conflicting sizes of the tower dimension) denotes the model of the original code, refuted in C18_labels_orig_refuted:
+   the description language tells the two apart for all inputs, not only on samples *)
+Theorem C18_description_original :
+  forall (N L T V F A : Type) (eqbN : N -> N -> bool) (str : T -> L) (nanV : V) (zeroF : F) (E : @extras N L T V F),
+  (forall a : N, eqbN a a = true) ->
+  forall (sd : save_d) (k1 k2 k3 k4 : fkey),
+  sv_names sd = NKeys -> sv_is3d sd = (KFlx, 3) ->
+  normalize (sv_3d sd) = Some (canon_norm true MByPosition k1 k2) ->
+  normalize (sv_2d sd) = Some (canon_norm false MByPosition k3 k4) ->
+  forall (rs : @results N T V F A) (tws : list (@tower N V)),
+  run_save eqbN str nanV zeroF E sd rs tws =
+  option_map (fun d => (d, @nil (String.string * String.string))) (assemble_orig eqbN str nanV zeroF rs tws).
+Proof. exact (@run_save_positional). Qed.
 
 (* non-vacuity: 2 towers x 2 steps, 3-D, results keys in REVERSED configuration order, z0 forcing
    (ustar absent), identity library: every hypothesis above holds and the statements compute *)
@@ -228,8 +244,10 @@ Definition ex_E : @extras nat nat nat nat nat :=
 
 Example C18_description_nonvacuous :
   sv_names (ex_save MByName) = NKeys /\ sv_is3d (ex_save MByName) = (KFlx, 3) /\
-  normalize (sv_3d (ex_save MByName)) = Some (canon_norm true KFlx KFlx) /\
-  normalize (sv_2d (ex_save MByName)) = Some (canon_norm false KFlx KFlx) /\
+  normalize (sv_3d (ex_save MByName)) = Some (canon_norm true MByName KFlx KFlx) /\
+  normalize (sv_2d (ex_save MByName)) = Some (canon_norm false MByName KFlx KFlx) /\
+  normalize (sv_3d (ex_save MByPosition)) = Some (canon_norm true MByPosition KFlx KFlx) /\
+  normalize (sv_2d (ex_save MByPosition)) = Some (canon_norm false MByPosition KFlx KFlx) /\
   run_save Nat.eqb (fun t : nat => t) 999 0 ex_E (ex_save MByName) ex_rs ex_tws =
     option_map (fun d => (d, nil)) (assemble Nat.eqb (fun t : nat => t) 999 0 ex_rs ex_tws) /\
   run_save Nat.eqb (fun t : nat => t) 999 0 ex_E (ex_save MByName) ex_rs ex_tws <> None /\
@@ -237,6 +255,7 @@ Example C18_description_nonvacuous :
     option_map (fun d => (d, nil)) (assemble Nat.eqb (fun t : nat => t) 999 0 ex_rs ex_tws).
 Proof.
   split; [reflexivity|]. split; [reflexivity|]. split; [vm_compute; reflexivity|]. split; [vm_compute; reflexivity|].
+  split; [vm_compute; reflexivity|]. split; [vm_compute; reflexivity|].
   split; [vm_compute; reflexivity|]. split; vm_compute; discriminate.
 Qed.
 
@@ -251,3 +270,4 @@ Goal True. idtac "THEOREM C18_fill_loop". Abort. Print Assumptions C18_fill_loop
 Goal True. idtac "THEOREM C18_fill_first". Abort. Print Assumptions C18_fill_first.
 Goal True. idtac "THEOREM C18_indexing". Abort. Print Assumptions C18_indexing.
 Goal True. idtac "THEOREM C18_description_meaning". Abort. Print Assumptions C18_description_meaning.
+Goal True. idtac "THEOREM C18_description_original". Abort. Print Assumptions C18_description_original.
